@@ -68,6 +68,23 @@ class Stubs:
                 return float(x)
             me.float = _num
             self.undo.append(lambda: delattr(me, 'float'))
+        if 'parse' in self.names:
+            # stub S10: dateutil under tracing costs ~0.3 s per call; the known concrete stamps
+            # are looked up, anything else (and any extra argument) goes to the real parser
+            import mosromgr.moselements as me
+            import mosromgr.mostypes as mty
+            from vlib.h_access import STAMPS, STAMP_VALUES
+            real = me.parse
+
+            def _parse(s, *a, **k):
+                if not a and not k and type(s) is str:
+                    for st, val in zip(STAMPS, STAMP_VALUES):
+                        if s is st or s == st:
+                            return val
+                return real(s, *a, **k)
+            me.parse = _parse
+            mty.parse = _parse
+            self.undo.append(lambda: (setattr(me, 'parse', real), setattr(mty, 'parse', real)))
         return self
 
     def __exit__(self, *a):
